@@ -11,7 +11,15 @@
 //          oracle on the library's own parent state and full agreement with a small
 //          reference model of the connection list.
 //
+//  part d  input path: the record forms of (a) on a 4x4x2 grid whose cells differ pairwise in
+//          DX/DY/DZ/PERM/NTG, wells in cells with I != J (both (i,j) and (j,i) occupied), the
+//          record delivered (load) at load time, (actionx) inside an ACTIONX body applied with
+//          Schedule::applyAction, (replay) at load time in a report step after an applyAction
+//          call (re-evaluated tail of the SCHEDULE section); oracle of (a) against the
+//          connection's OWN cell, plus: the other paths give exactly the load-time connection.
+//
 // Case strings (also accepted by --replay):
+//   "d <unit> <dir> <shift> <path> <form>"                      path 0 load, 1 actionx, 2 replay, 3 actionx at step 1
 //   "a <unit> <cell> <dir> <cf> <kh> <di> <r0> <sk> <v>"        indices into the alphabets below (v: explicit value set)
 //   "b <unit> <cell> <dir> <cf> <kh> <di> <r0> <sk> <v> <mask>" mask bit0 CF, bit1 Kh, bit2 r0
 //   "c <regime> e1 e2 ... en"                               last event is the checked transition
@@ -20,7 +28,12 @@
 #include <opm/input/eclipse/EclipseState/EclipseState.hpp>
 #include <opm/input/eclipse/Parser/Parser.hpp>
 #include <opm/input/eclipse/Python/Python.hpp>
+#include <opm/input/eclipse/Schedule/Action/ActionResult.hpp>
+#include <opm/input/eclipse/Schedule/Action/ActionX.hpp>
+#include <opm/input/eclipse/Schedule/Action/Actions.hpp>
+#include <opm/input/eclipse/Schedule/Action/SimulatorUpdate.hpp>
 #include <opm/input/eclipse/Schedule/Schedule.hpp>
+#include <opm/input/eclipse/Schedule/ScheduleState.hpp>
 #include <opm/input/eclipse/Schedule/Well/Connection.hpp>
 #include <opm/input/eclipse/Schedule/Well/Well.hpp>
 #include <opm/input/eclipse/Schedule/Well/WellConnections.hpp>
@@ -216,29 +229,32 @@ static std::string in_class(const In& in) {
 }
 
 // oracle of part a for one observed connection
-static void judge_single(const std::string& cs, const std::string& rec, const Cell& cell, const In& in, const One& o) {
+// pfx: "C06:single" for load-time input; other input paths use their own prefix and leave the relation of the
+// over-determined class (CF, Kh and r0 all explicit: decided by part a) to the differential comparison.
+static void judge_single(const std::string& cs, const std::string& rec, const Cell& cell, const In& in, const One& o,
+                         const std::string& pfx = "C06:single", bool other_path = false, const char* cnt = "a_") {
     const std::string rp = "{\"case\": " + vf::jstr(cs) + ", \"record\": " + vf::jstr(rec) + "}";
-    if (!o.ok) { R->violation(std::string("C06:single:rejected:") + in_class(in), "legal COMPDAT record not accepted: " + o.err + " [" + rec + "]", rp); return; }
+    if (!o.ok) { R->violation(pfx + ":rejected:" + in_class(in), "legal COMPDAT record not accepted: " + o.err + " [" + rec + "]", rp); return; }
     const Ref r = reference(cell, in);
     const OC& c = o.oc;
     const std::string cls = r.cls;
     const std::string what = " [" + rec + "] stored " + oc_str(c) + "; reference CF=" + vf::fmt17(r.CF) + " Kh=" + vf::fmt17(r.Kh) + " r0=" + vf::fmt17(r.r0) + " rw=" + vf::fmt17(r.rw);
     // (1) the relation on the stored values
     const double lhs = c.CF * (std::log(c.r0 / c.rw) + c.S), rhs = si::two_pi * c.Kh;
-    if (!(std::fabs(lhs - rhs) <= 1e-10 * std::fabs(rhs)) || !(c.CF > 0) || !(c.Kh > 0) || !(c.r0 > 0))
-        R->violation("C06:single:identity:" + cls, "stored CF (ln(r0/rw)+S) / (2 pi Kh) - 1 = " + vf::fmt17(lhs / rhs - 1) + what, rp);
+    if ((!(std::fabs(lhs - rhs) <= 1e-10 * std::fabs(rhs)) || !(c.CF > 0) || !(c.Kh > 0) || !(c.r0 > 0)) && !(other_path && cls == "overdetermined"))
+        R->violation(pfx + ":identity:" + cls, "stored CF (ln(r0/rw)+S) / (2 pi Kh) - 1 = " + vf::fmt17(lhs / rhs - 1) + what, rp);
     // (2) explicit / defaulted quantities
-    if (!close(c.rw, r.rw, 1e-12)) R->violation(std::string("C06:single:rw-") + (in.di ? "explicit" : "defaulted"), "rw" + what, rp);
-    if (!close(c.S, r.S, 1e-12) && !(c.S == 0 && r.S == 0)) R->violation("C06:single:skin", "skin" + what, rp);
-    if (c.dir != in.dir) R->violation("C06:single:dir", "direction" + what, rp);
-    if (cls != "derive-CF" && !close(c.CF, r.CF, 1e-12)) R->violation("C06:single:CF-explicit:" + cls, "explicit CF not stored as given (unit conversion?)" + what, rp);
+    if (!close(c.rw, r.rw, 1e-12)) R->violation(pfx + ":rw-" + (in.di ? "explicit" : "defaulted"), "rw" + what, rp);
+    if (!close(c.S, r.S, 1e-12) && !(c.S == 0 && r.S == 0)) R->violation(pfx + ":skin", "skin" + what, rp);
+    if (c.dir != in.dir) R->violation(pfx + ":dir", "direction" + what, rp);
+    if (cls != "derive-CF" && !close(c.CF, r.CF, 1e-12)) R->violation(pfx + ":CF-explicit:" + cls, "explicit CF not stored as given (unit conversion?)" + what, rp);
     if (cls != "derive-Kh" && !close(c.Kh, r.Kh, r.kh_from_input ? 1e-12 : 1e-10))
-        R->violation(std::string("C06:single:Kh-") + (r.kh_from_input ? "explicit" : "defaulted") + ":" + cls, "Kh" + what, rp);
+        R->violation(pfx + ":Kh-" + (r.kh_from_input ? "explicit" : "defaulted") + ":" + cls, "Kh" + what, rp);
     if (cls != "derive-r0" && cls != "overdetermined" && !close(c.r0, r.r0, r.r0_from_input ? 1e-12 : 1e-10))
-        R->violation(std::string("C06:single:r0-") + (r.r0_from_input ? "explicit" : "defaulted") + ":" + cls, "r0" + what, rp);
-    R->count(std::string("a_class_") + cls);
-    if (c.r0 < c.rw) R->count("a_stored_r0_below_rw");
-    char b[160]; std::snprintf(b, sizeof b, "%s|%.12g|%.12g|%.12g|%.12g|%g", r.cls, c.CF, c.Kh, c.r0, c.rw, c.S);
+        R->violation(pfx + ":r0-" + (r.r0_from_input ? "explicit" : "defaulted") + ":" + cls, "r0" + what, rp);
+    R->count(std::string(cnt) + "class_" + cls);
+    if (c.r0 < c.rw) R->count(std::string(cnt) + "stored_r0_below_rw");
+    char b[200]; std::snprintf(b, sizeof b, "%s%s|%.12g|%.12g|%.12g|%.12g|%g", other_path ? pfx.c_str() : "", r.cls, c.CF, c.Kh, c.r0, c.rw, c.S);
     R->observe(std::string(b));
 }
 
@@ -346,6 +362,170 @@ static void replay_ab(const std::string& cs) {
     build_records(env, fr, 0, 1, f);
     judge_feedback(cs, fr[0], mask, in, o[0].oc, f[0]);
     std::fprintf(stderr, "%s -> %s\n%s -> %s\n", recs[0].c_str(), oc_str(o[0].oc).c_str(), fr[0].c_str(), f[0].ok ? oc_str(f[0].oc).c_str() : f[0].err.c_str());
+}
+
+// ------------------------------------------------------------------ part d ---
+// 4x4x2 grid, every cell different; wells only in off-diagonal columns, both (i,j) and (j,i) in use.
+namespace hg {
+    const int NX = 4, NY = 4, NZ = 2;
+    const double DXV[NX] = {60.0, 80.0, 100.0, 120.0}, DYV[NY] = {40.0, 70.0, 90.0, 130.0}, DZV[NZ] = {8.0, 12.0};    // m
+    inline int gidx(int i, int j, int k) { return i + NX * (j + NY * k); }
+    inline Cell cell(int i, int j, int k) { const int g = gidx(i, j, k); return {{DXV[i], DYV[j], DZV[k]}, {100.0 + 37.0 * g, 600.0 - 10.0 * g, 20.0 + 4.0 * g}, 0.45 + 0.015 * g}; }
+    inline double depth(int k) { double d = 2000.0; for (int l = 0; l < k; ++l) d += DZV[l]; return d + DZV[k] / 2; }
+    struct Loc { int i, j, k; };
+    inline const std::vector<Loc>& locs() {
+        static const std::vector<Loc> l = {{0,2,0},{2,0,1},{1,3,0},{3,1,1},{0,1,1},{1,0,0},{2,3,1},{3,2,0},{2,0,0},{0,2,1},{3,1,0},{1,3,1},{1,0,1},{0,1,0},{3,2,1},{2,3,0}};
+        return l;
+    }
+}
+static std::string hetero_grid_deck(const Unit& u) {
+    using namespace hg;
+    auto vec = [&](const char* kw, const double* v, int n) { std::string s = std::string(kw) + "\n"; for (int x = 0; x < n; ++x) s += " " + vf::fmt17(v[x] / u.len); return s + " /\n"; };
+    auto arr = [&](const char* kw, auto f) { std::string s = std::string(kw) + "\n"; for (int k = 0; k < NZ; ++k) for (int j = 0; j < NY; ++j) for (int i = 0; i < NX; ++i) s += " " + vf::fmt17(f(cell(i, j, k))); return s + " /\n"; };
+    std::string s = std::string("RUNSPEC\nDIMENS\n 4 4 2 /\nOIL\nWATER\n") + u.name + "\nWELLDIMS\n 2000 40 2 2000 /\nSTART\n 1 JAN 2020 /\nGRID\n";
+    s += vec("DXV", DXV, NX) + vec("DYV", DYV, NY) + vec("DZV", DZV, NZ);
+    s += "TOPS\n 16*" + vf::fmt17(2000.0 / u.len) + " /\nPORO\n 32*0.25 /\n";
+    s += arr("PERMX", [](const Cell& c) { return c.Kmd[0]; }) + arr("PERMY", [](const Cell& c) { return c.Kmd[1]; }) + arr("PERMZ", [](const Cell& c) { return c.Kmd[2]; }) + arr("NTG", [](const Cell& c) { return c.ntg; });
+    return s + "SCHEDULE\n";
+}
+static Env make_hetero_env(const Unit& u) {
+    Env e; e.grid = hetero_grid_deck(u);
+    auto d = g_parser->parseString(e.grid + "END\n"); e.es = std::make_unique<EclipseState>(d);
+    return e;
+}
+enum Path { P_LOAD, P_ACTIONX, P_REPLAY, P_ACTIONX1, NPATH };
+static const char* path_names[] = {"load", "actionx", "replay", "actionx-step1"};
+struct OD { OC oc; double depth; std::size_t gidx; };
+struct OneD { bool ok = false; OD od{}; std::string err; One one() const { One o; o.ok = ok; o.oc = od.oc; o.err = err; return o; } };
+
+// One Schedule with one well per record; the record reaches the Schedule on the given path.  Helper wells: Y is completed at
+// load time in every cell the W wells can use (so every cell and its transposed cell is in the cell cache whatever the batch),
+// Z is the well the action of the replay path acts on.
+static void build_path(const Env& env, int path, const std::vector<std::string>& recs, const std::vector<hg::Loc>& loc, size_t lo, size_t hi, std::vector<OneD>& out) {
+    std::string s = env.grid + "WELSPECS\n";
+    for (size_t n = lo; n < hi; ++n) s += " 'W" + std::to_string(n) + "' 'G' " + std::to_string(loc[n].i + 1) + " " + std::to_string(loc[n].j + 1) + " 1* OIL /\n";
+    s += " 'Y' 'G' 1 3 1* OIL /\n 'Z' 'G' 1 1 1* OIL /\n/\nCOMPDAT\n 'Z' 1 1 1 1 OPEN /\n";
+    for (const auto& l : hg::locs()) s += " 'Y' " + std::to_string(l.i + 1) + " " + std::to_string(l.j + 1) + " " + std::to_string(l.k + 1) + " " + std::to_string(l.k + 1) + " OPEN /\n";
+    s += "/\n";
+    std::string comp = "COMPDAT\n";
+    for (size_t n = lo; n < hi; ++n) comp += " 'W" + std::to_string(n) + "'" + recs[n];
+    comp += "/\n";
+    const std::string step = "TSTEP\n 10 /\n";
+    switch (path) {
+    case P_LOAD: s += comp + step + step; break;
+    case P_ACTIONX: case P_ACTIONX1: s += "ACTIONX\n ACT 10 /\n FPR < 100 /\n/\n" + comp + "ENDACTIO\n" + step + step; break;
+    case P_REPLAY: s += "ACTIONX\n ACT 10 /\n FPR < 100 /\n/\nWELOPEN\n 'Z' SHUT /\n/\nENDACTIO\n" + step + comp + step; break;
+    }
+    s += "END\n";
+    try {
+        auto deck = g_parser->parseString(s);
+        auto sched = std::make_unique<Schedule>(deck, *env.es, g_python);          // never copied / moved
+        if (path != P_LOAD) {
+            const std::size_t at = path == P_ACTIONX1 ? 1 : 0;
+            const auto& act = (*sched)[at].actions()["ACT"];
+            sched->applyAction(at, act, Action::Result{true}.matches(), std::unordered_map<std::string, double>{});
+        }
+        const std::size_t last = sched->size() - 1;
+        for (size_t n = lo; n < hi; ++n) {
+            const auto& conns = sched->getWell("W" + std::to_string(n), last).getConnections();
+            if (conns.size() != 1) { out[n].err = "record produced " + std::to_string(conns.size()) + " connections"; continue; }
+            out[n].ok = true; out[n].od = OD{observe(conns[0]), conns[0].depth(), conns[0].global_index()};
+        }
+    } catch (const std::exception& e) {
+        if (hi - lo == 1) { out[lo].err = std::string("exception: ") + std::string(e.what()).substr(0, 300); return; }
+        size_t mid = lo + (hi - lo) / 2;
+        build_path(env, path, recs, loc, lo, mid, out); build_path(env, path, recs, loc, mid, hi, out);
+    }
+}
+
+struct Form { In in; int v; };
+static std::vector<Form> forms(int dir) {
+    const Alpha A = alpha(); std::vector<Form> f;
+    for (int v = 0; v < A.nval; ++v) for (int cf = 0; cf < A.ncf; ++cf) for (int kh = 0; kh < A.nkh; ++kh) for (int di = 0; di < 2; ++di) for (int r0 = 0; r0 < 2; ++r0) for (int sk = 0; sk < A.nsk; ++sk) {
+        In in; in.dir = dir; in.cf = cf; in.kh = kh; in.di = di; in.r0 = r0; in.sk = sk; in.value_set(v);
+        if (v > 0 && cf != CF_EXP && kh != KH_EXP && !di && !r0) continue;
+        f.push_back({in, v});
+    }
+    return f;
+}
+static std::string case_d(int ui, int dir, int shift, int path, size_t n) { return "d " + std::to_string(ui) + " " + std::to_string(dir) + " " + std::to_string(shift) + " " + std::to_string(path) + " " + std::to_string(n); }
+
+// judges form n of a batch on one path (and against the load-time connection)
+static void judge_path(int ui, int dir, int shift, int path, size_t n, const Form& f, const hg::Loc& l, const std::string& rec, const OneD& load, const OneD& got) {
+    const std::string cs = case_d(ui, dir, shift, path, n);
+    const std::string pfx = path == P_LOAD ? "C06:single" : std::string("C06:path-") + path_names[path];
+    const std::string rp = "{\"case\": " + vf::jstr(cs) + ", \"record\": " + vf::jstr(rec) + "}";
+    const std::string cnt = std::string("d_") + path_names[path] + "_";
+    R->evaluations++; R->count(cnt + "cases");
+    judge_single(cs, rec, hg::cell(l.i, l.j, l.k), f.in, got.one(), pfx, path != P_LOAD, cnt.c_str());
+    if (!got.ok) return;
+    const OD& g = got.od;
+    const std::string own = " own cell (" + std::to_string(l.i + 1) + "," + std::to_string(l.j + 1) + "," + std::to_string(l.k + 1) + ")";
+    if (g.oc.i != l.i || g.oc.j != l.j || g.oc.k != l.k) R->violation(pfx + ":ijk", "connection sits in " + oc_str(g.oc) + " instead of" + own + " [" + rec + "]", rp);
+    if (g.gidx != (std::size_t)hg::gidx(l.i, l.j, l.k)) R->violation(pfx + ":global-index", "global index " + std::to_string(g.gidx) + " is not that of the" + own + " (" + std::to_string(hg::gidx(l.i, l.j, l.k)) + ") [" + rec + "]", rp);
+    if (!close(g.depth, hg::depth(l.k), 1e-10)) R->violation(pfx + ":depth", "depth " + vf::fmt17(g.depth) + " is not the centre depth " + vf::fmt17(hg::depth(l.k)) + " of the" + own + " [" + rec + "]", rp);
+    if (path == P_LOAD) return;
+    if (!load.ok) { R->violation(pfx + ":accepted-but-rejected-at-load-time", "record accepted on path " + std::string(path_names[path]) + " but not at load time (" + load.err + ") [" + rec + "]", rp); return; }
+    const OD& a = load.od; std::string d;
+    if (g.oc.CF != a.oc.CF) d += "-CF"; if (g.oc.Kh != a.oc.Kh) d += "-Kh"; if (g.oc.r0 != a.oc.r0) d += "-r0"; if (g.oc.rw != a.oc.rw) d += "-rw"; if (g.oc.S != a.oc.S) d += "-skin";
+    if (g.depth != a.depth) d += "-depth"; if (g.gidx != a.gidx) d += "-globalindex";
+    if (g.oc.i != a.oc.i || g.oc.j != a.oc.j || g.oc.k != a.oc.k) d += "-ijk";
+    if (g.oc.complnum != a.oc.complnum) d += "-complnum"; if (g.oc.sort != a.oc.sort) d += "-sortvalue"; if (g.oc.state != a.oc.state) d += "-state"; if (g.oc.dir != a.oc.dir) d += "-dir";
+    // key: which kind of datum differs (the list of fields is in the text)
+    std::string kind;
+    if (d.find("-CF") != std::string::npos || d.find("-Kh") != std::string::npos || d.find("-r0") != std::string::npos || d.find("-depth") != std::string::npos || d.find("-globalindex") != std::string::npos || d.find("-ijk") != std::string::npos) kind += "+cell-data";
+    if (d.find("-rw") != std::string::npos || d.find("-skin") != std::string::npos || d.find("-state") != std::string::npos || d.find("-dir") != std::string::npos) kind += "+record-data";
+    if (d.find("-complnum") != std::string::npos || d.find("-sortvalue") != std::string::npos) kind += "+numbering";
+    if (!d.empty()) R->violation(pfx + ":differs-from-load-time:" + kind.substr(1), "fields " + d.substr(1) + ": the same record in the same cell gives a different connection on path " + std::string(path_names[path]) + ": " + oc_str(g.oc) + " depth=" + vf::fmt17(g.depth) + " gidx=" + std::to_string(g.gidx) +
+                                 "; at load time: " + oc_str(a.oc) + " depth=" + vf::fmt17(a.depth) + " gidx=" + std::to_string(a.gidx) + ";" + own + " [" + rec + "]", rp);
+}
+
+static std::vector<int> d_shifts() { return R->thorough() ? std::vector<int>{0, 1, 2, 3, 4, 5, 6, 7, 8, 9, 10, 11, 12, 13, 14, 15} : std::vector<int>{0, 3, 6, 9, 12}; }
+static int d_npath() { return R->thorough() ? (int)NPATH : 3; }
+
+static void run_d_batch(const Env& env, int ui, int dir, int shift, long only_form, int only_path) {
+    const auto F = forms(dir); const auto& L = hg::locs();
+    std::vector<std::string> recs; std::vector<hg::Loc> loc;
+    for (size_t n = 0; n < F.size(); ++n) {
+        const hg::Loc l = L[(n + shift) % L.size()]; loc.push_back(l);
+        recs.push_back(compdat_rec("", l.i + 1, l.j + 1, l.k + 1, l.k + 1, tokens(F[n].in, units()[ui]), dir).substr(3));
+    }
+    std::vector<std::vector<OneD>> got(NPATH, std::vector<OneD>(recs.size()));
+    for (int p = 0; p < d_npath() || (only_path >= 0 && p <= only_path); ++p) {
+        if (only_path >= 0 && p != P_LOAD && p != only_path) continue;
+        R->current("d-batch " + std::to_string(ui) + " " + std::to_string(dir) + " " + std::to_string(shift) + " " + path_names[p]);
+        build_path(env, p, recs, loc, 0, recs.size(), got[p]);
+        for (size_t n = 0; n < recs.size(); ++n) {
+            if (only_form >= 0 && (long)n != only_form) continue;
+            judge_path(ui, dir, shift, p, n, F[n], loc[n], recs[n], got[P_LOAD][n], got[p][n]);
+            if (only_form >= 0) std::fprintf(stderr, "%s: 'W%zu'%s -> %s\n", path_names[p], n, recs[n].c_str(), got[p][n].ok ? (oc_str(got[p][n].od.oc) + " depth=" + vf::fmt17(got[p][n].od.depth) + " gidx=" + std::to_string(got[p][n].od.gidx)).c_str() : got[p][n].err.c_str());
+            if (only_form < 0 && p == P_ACTIONX && n == (size_t)(37 * (shift + 1) + 11 * dir) % recs.size() && R->samples.size() < 5)
+                R->sample_str(case_d(ui, dir, shift, p, n) + "  => " + units()[ui].name + " ACTIONX body: COMPDAT 'W'" + recs[n].substr(0, recs[n].size() - 1) + "  -> " + (got[p][n].ok ? oc_str(got[p][n].od.oc) : got[p][n].err));
+        }
+    }
+}
+
+static void part_d() {
+    // the alphabet must stay clear of ln(r0/rw)+S <= 0: smallest Peaceman r0 of the grid
+    double r0min = 1e300;
+    for (int k = 0; k < hg::NZ; ++k) for (int j = 0; j < hg::NY; ++j) for (int i = 0; i < hg::NX; ++i) for (int a = 0; a < 3; ++a) { double r0, kh; peaceman(hg::cell(i, j, k), a, r0, kh); r0min = std::min(r0min, r0); }
+    if (R->shard == 0) R->notes["d_smallest_peaceman_r0_m"] = vf::fmt17(r0min);
+    if (r0min < 1.5) { R->violation("C06:harness:part-d-grid", "part d grid has a cell with Peaceman r0 " + vf::fmt17(r0min)); return; }
+    long group = 5;                                           // offset: spread over shards differently from parts a/b
+    for (int ui = 0; ui < (int)units().size(); ++ui) {
+        std::optional<Env> env;
+        for (int dir = 0; dir < 3; ++dir) for (int shift : d_shifts()) {
+            if (!R->mine(group++)) continue;
+            if (R->timed_out()) return;
+            if (!env) env.emplace(make_hetero_env(units()[ui]));
+            run_d_batch(*env, ui, dir, shift, -1, -1);
+        }
+    }
+}
+static void replay_d(const std::string& cs) {
+    std::istringstream ss(cs); std::string part; int ui, dir, shift, path; long n; ss >> part >> ui >> dir >> shift >> path >> n;
+    Env env = make_hetero_env(units()[ui]);
+    run_d_batch(env, ui, dir, shift, n, path);
 }
 
 // ------------------------------------------------------------------ part c ---
@@ -617,6 +797,9 @@ int main(int argc, char** argv) {
                " values incl. negative and 1*) x 2 sets of explicit values x " + std::to_string(A.ncell) + " anisotropic cells x {METRIC,FIELD,LAB,PVT-M}, each record in its own well, judged batched and again alone in its own deck; oracle: independent Peaceman calculation in SI with own exact unit factors: "
                "stored CF(ln(r0/rw)+S)=2piKh to 1e-10, every explicit item stored as given, every defaulted item equal to the cell's Peaceman value (1e-10); "
                "b: the stored CF/Kh/r0 of every case of a fed back (17 digits, deck units) in all 7 subsets, nothing changes (1e-9); "
+               "d: input path: the record forms of a (one well per record) on a 4x4x2 grid with pairwise different DX/DY/DZ/PERMX/Y/Z/NTG, wells in the 16 off-diagonal cells (i,j,k),(j,i,k) rotated over the forms by " + std::to_string(d_shifts().size()) +
+               " shifts, x {METRIC,FIELD,LAB,PVT-M}, delivered at load time / inside an ACTIONX body applied with Schedule::applyAction at step 0" + (run.thorough() ? " and at step 1" : "") + " / at load time in the report step after an applied action (re-evaluated tail); "
+               "oracle of a against the connection's own cell plus own global index and centre depth, and the non-load paths give bit-exactly the load-time connection (CF, Kh, r0, rw, skin, depth, global index, ijk, complnum, sort_value, state, dir); "
                "c: all histories over " + std::to_string(g_ev.size()) + " events on one well, regimes COMPORD TRACK/INPUT x unit system with depth {" + depths + "}; per transition: frame condition on the library's own parent state (untargeted connections keep relative order, complnum, sort_value, CF, Kh, r0, rw, skin, state bit-exactly) "
                "and agreement of the whole connection list with a reference model (new CF by the Peaceman oracle, CF x factor, whole-well WPIMULT = last record of the report step applied at the end of the step, cumulative across steps)";
     run.assumptions = {
@@ -625,13 +808,16 @@ int main(int argc, char** argv) {
         "which of CF/Kh/r0 is fixed by the relation follows the COMPDAT manual: CF given + Kh defaulted/negative -> Kh from CF; CF given + Kh = 0 -> Kh from the cell and r0 made compatible (an explicit r0 cannot be honoured); CF and Kh given -> r0 made compatible",
         "part c: whole-well WPIMULT records are deferred to the end of the report step and only the last one counts (comment in handleWPIMULT); a COMPDAT re-entry later in the same step is therefore scaled too - transitions depending on this are counted, the property text does not decide it",
         "part c: all connections lie in one column, where TRACK order is depth order; TRACK re-ordering of deviated wells is not covered",
+        "part d: the relation for the over-determined class (CF, Kh, r0 all explicit) is decided in part a only; on the ACTIONX/replay paths that class is judged by the differential comparison with the load-time connection",
+        "part d: the action is applied with an empty matching-well set and no target_wellpi; PYACTION is the same applyAction entry point and is not run separately",
         "values outside the alphabets (other explicit CF/Kh/r0/diameter values, D-factor, saturation table item) are not covered"};
 
     if (!run.replay_path.empty()) {
-        if (run.replay_path[0] == 'c') replay_c(run.replay_path); else replay_ab(run.replay_path);
+        if (run.replay_path[0] == 'c') replay_c(run.replay_path); else if (run.replay_path[0] == 'd') replay_d(run.replay_path); else replay_ab(run.replay_path);
         return run.finish();
     }
     parts_ab();
+    part_d();
     part_c();
     run.states = run.hashes.size();
     return run.finish();
